@@ -5,9 +5,11 @@
   correspondence ops).
 
   (1) get_insert            after inserting x at p, reading p returns x           — all v p x
+  (1b) insert_returns_get  insert hands back exactly what get returned before       — all v p x
   (2) frame_partial         locations that diverge from p are unchanged            — under `frameOK`
       (the full statement is false of the code: witnesses in VrlProofs/Witness/C18.lean)
   (3) remove_returns_get    remove returns exactly what get returned               — all v p prune
+  (3b) get_after_remove_partial  a removed field path reads as absent             — field paths (index: witness)
   (4) get_through_scalar / remove_absent_unchanged                                 — all v p
   (5) insert_sorted / remove_sorted   object keys stay strictly sorted             — all v p x
   (6) insert_panics_iff     the only panic is `-isize::MIN`                        — all v p x
@@ -339,5 +341,124 @@ theorem remove_sorted (v : Value) (p : Path) (prune : Bool) (hv : v.Sorted = tru
   | some r =>
     obtain ⟨prev, new, gone⟩ := r
     exact removeOpt_sorted p (some v) prune _ (by intro w hw; cases hw; exact hv) hr
+
+/-! (1b) the value returned by `insert` -/
+
+theorem insertPrev_none (p : Path) : insertPrev none p = none := by
+  induction p with
+  | nil => rfl
+  | cons s rest ih =>
+    cases s with
+    | field f => simp [insertPrev, asMap, ih]
+    | index i =>
+      cases rest with
+      | nil => simp [insertPrev, asList, VList.insertIdxPrev, VList.getN]
+      | cons t r =>
+        have hg : VList.nil.getIdx i = none := by
+          unfold VList.getIdx; cases VList.nil.arrayIndex i <;> rfl
+        simp only [insertPrev, asList, hg]; exact ih
+
+
+/-- the value handed back by `crud::insert` is what `crud::get` finds at the same location. -/
+theorem insertPrev_eq_getOpt (p : Path) : ∀ (c : Option Value), insertPrev c p = getOpt c p := by
+  induction p with
+  | nil => intro c; rfl
+  | cons s rest ih =>
+    intro c
+    cases s with
+    | field f =>
+      rcases c with _ | v
+      · rw [insertPrev_none, getOpt_none]
+      · cases v <;> simp [insertPrev, asMap, getOpt, ih, getOpt_none]
+    | index i =>
+      rcases c with _ | v
+      · rw [insertPrev_none, getOpt_none]
+      · cases rest with
+        | nil =>
+          cases v with
+          | arr a => simp only [insertPrev, asList, getOpt]; exact VList.insertIdxPrev_eq_getIdx a i
+          | _ => simp [insertPrev, asList, getOpt, VList.insertIdxPrev, VList.getN]
+        | cons t r =>
+          have hg : VList.nil.getIdx i = none := by
+            unfold VList.getIdx; cases VList.nil.arrayIndex i <;> rfl
+          cases v <;> simp [insertPrev, asList, getOpt, ih, hg, getOpt_none]
+
+/-- (1b) `insert` returns exactly what reading the path returned before (all index signs, coercions
+    and paddings included). -/
+theorem insert_returns_get (v : Value) (p : Path) (x : Value) (v' : Value) (prev : Option Value)
+    (h : v.insert p x = .ok (v', prev)) : prev = v.get p := by
+  unfold Value.insert at h
+  split at h
+  · cases h
+  · cases h; exact insertPrev_eq_getOpt p (some v)
+
+/-! (3b) reading a removed location -/
+
+theorem removeOpt_gone_nil (c : Option Value) (prune : Bool) (r : Value × Value × Bool)
+    (h : removeOpt c [] prune = some r) : r.2.2 = true := by
+  cases c with
+  | none => simp [removeOpt] at h
+  | some v => simp [removeOpt] at h; subst h; rfl
+
+theorem getOpt_removeOpt (p : Path) : ∀ (c : Option Value) (prune : Bool) (r : Value × Value × Bool),
+    fieldsOnly p = true → p ≠ [] → (∀ v, c = some v → v.Sorted = true) →
+    removeOpt c p prune = some r → getOpt (some r.2.1) p = none := by
+  induction p with
+  | nil => intro _ _ _ _ h; exact absurd rfl h
+  | cons s rest ih =>
+    intro c prune r hf _ hs h
+    cases s with
+    | index i => simp [fieldsOnly] at hf
+    | field f =>
+      simp only [fieldsOnly] at hf
+      cases c with
+      | none => simp [removeOpt] at h
+      | some v =>
+        cases v with
+        | obj m =>
+          have hm : m.Sorted = true := by have := hs _ rfl; simpa [Value.Sorted] using this
+          simp only [removeOpt] at h
+          cases hr : removeOpt (m.get f) rest prune with
+          | none => simp [hr] at h
+          | some r' =>
+            obtain ⟨prev, new, gone⟩ := r'
+            simp only [hr, Option.some.injEq] at h
+            subst h
+            cases gone with
+            | true =>
+              simp only [if_true, getOpt, VMap.get_remove_same m f hm]
+              exact getOpt_none rest
+            | false =>
+              simp only [Bool.false_eq_true, if_false, getOpt, VMap.get_insert_same]
+              have hne : rest ≠ [] := by
+                intro e; subst e
+                have := removeOpt_gone_nil _ _ _ hr
+                simp at this
+              exact ih (m.get f) prune (prev, new, false) hf hne
+                (fun w hw => VMap.sorted_get m f w hm hw) hr
+        | _ => simp [removeOpt] at h
+
+/-- (3b) after removing at a non-root path of field segments the path reads as absent
+    (with and without pruning). `_partial`: for index segments the statement is false of code and
+    model alike, because the later elements move down (`remove_then_get_index_witness`). -/
+theorem get_after_remove_partial (v : Value) (p : Path) (prune : Bool) (hv : v.Sorted = true)
+    (hf : fieldsOnly p = true) (hne : p ≠ []) : (v.remove p prune).2.get p = none := by
+  have h1 := removeOpt_fst p (some v) prune
+  unfold Value.remove Value.get
+  cases hr : removeOpt (some v) p prune with
+  | none => rw [hr] at h1; simpa using h1.symm
+  | some r =>
+    obtain ⟨prev, new, gone⟩ := r
+    exact getOpt_removeOpt p (some v) prune (prev, new, gone) hf hne
+      (by intro w hw; cases hw; exact hv) hr
+
+/-- `[1, 2]`: remove `[0]`, then `[0]` reads `2`. -/
+theorem remove_then_get_index_witness :
+    ((Value.arr (.cons (.int 1) (.cons (.int 2) .nil))).remove [.index 0] false).2.get [.index 0]
+      = some (.int 2) := by decide
+
+/-- non-vacuity: `{"a": {"b": 1}}`, `.a.b`, pruning. -/
+example : ((Value.obj (.cons [97] (.obj (.cons [98] (.int 1) .nil)) .nil)).remove
+    [.field [97], .field [98]] true).2 = .obj .nil := by decide
 
 end C18
